@@ -264,6 +264,28 @@ fn boundary(p: u128) -> Vec<u128> {
             v.push(k);
         }
     }
+    // zero divisors: two of the exported moduli are not prime (1000001 = 101 * 9901, 2^64 - 25 = 3 * ...),
+    // and the statement speaks about integer arithmetic modulo the exported constant for all residues, so
+    // the multiples of every small factor q (trial division below 2^20) and of its cofactor are boundary
+    // values too: q * (p/q) = 0, (q-1) * (p/q) = p - p/q lies above p/2, ...
+    let mut m = p;
+    let mut q = 2u128;
+    let mut found = 0;
+    while q < (1 << 20) && q * q <= m && found < 3 {
+        if m % q == 0 {
+            let c = p / q;
+            for x in [q, 2 * q, c, 2 * c % p, (q - 1) * c, p - q, c + 1, c - 1] {
+                if x < p {
+                    v.push(x);
+                }
+            }
+            while m % q == 0 {
+                m /= q;
+            }
+            found += 1;
+        }
+        q += 1;
+    }
     v.sort();
     v.dedup();
     v
@@ -351,6 +373,11 @@ pub fn run(ctx: &Ctx) -> Report {
     field::<5>(&mut acc, "5", &(0..5).collect::<Vec<u128>>(), true);
     field::<7>(&mut acc, "7", &(0..7).collect::<Vec<u128>>(), true);
     field::<13>(&mut acc, "13", &(0..13).collect::<Vec<u128>>(), true);
+    // composite tiny moduli, every residue: the type is generic in P and two of the exported constants are
+    // composite, so zero divisors are inside the domain the statement quantifies over
+    field::<6>(&mut acc, "6", &(0..6).collect::<Vec<u128>>(), true);
+    field::<9>(&mut acc, "9", &(0..9).collect::<Vec<u128>>(), true);
+    field::<15>(&mut acc, "15", &(0..15).collect::<Vec<u128>>(), true);
     // exported primes
     let all = ctx.tier == Tier::Thorough;
     field::<{ primes::U32_TINY }>(&mut acc, "U32_TINY", &boundary(primes::U32_TINY), all);
